@@ -12,9 +12,12 @@ ASSUME = [
     "SETCONF (filesystem; the hostname file appears when Tor has processed it) reply is withheld until the script's Reply step",
     "progress ('completes' / 'fails as soon as due') is demanded only for histories in which Tor acknowledges the service before "
     "announcing its uploads; for the others only safety (only after own success, at most once, unsubscribed afterwards)",
+    "filesystem services are created both on a fresh directory (the address becomes known with the reply) and on a directory Tor has "
+    "served before (hostname file present from the start: events before the reply are then attributable and count)",
     "authenticated ephemeral services (which match uploads by a permanent id derived from an RSA key) are not replayed",
     "every fourth creation is started right after an earlier service's creation completed on the same connection, while the SETEVENTS "
-    "that gives up HS_DESC for it is still unanswered (it is answered at the first step)",
+    "that gives up HS_DESC for it is still unanswered (it is answered at the first step); in another quarter the application has an "
+    "HS_DESC listener of its own on the connection (the event then stays subscribed; the creation's listener must still go)",
 ]
 
 
@@ -55,12 +58,25 @@ def run(pid, tier, seed):
                           timeout=300 if tier == "quick" else 1500, expect_cex=["OnionUp_Dev_foreign"])
     rng = random.Random(seed)
     sims = pipeline.generate(rep, "OnionUp_Gen", "OnionUp_Gen.cfg", 400 if tier == "quick" else 5000, 26, seed, allvars=True)
-    jobs = [(st["hist"], st["mode"]) for st in sims]
-    jobs += [(rand_script(rng), rng.choice(["first", "all"])) for _ in range(300 if tier == "quick" else 5000)]
+    jobs = [(st["hist"], st["mode"], st["hostEarly"]) for st in sims]
+    jobs += [(rand_script(rng), rng.choice(["first", "all"]), rng.random() < 0.3) for _ in range(300 if tier == "quick" else 5000)]
     traces, seen = [], set()
-    for i, (s, mode) in enumerate(jobs):
+    # directed: every own upload has failed before Tor answers the creation command, with and without other HS_DESC listeners
+    for mode in ("first", "all"):
+        for kind in ("fs", "eph"):
+            for pre, he in ((False, False), (True, False), ("listener", False), (False, True), (True, True), ("listener", True)):
+                if he and kind != "fs":
+                    continue
+                for s in ([dict(a="Upload", s="me", d="d1"), dict(a="Failed", s="me", d="d1"), dict(a="Reply")],
+                          [dict(a="Upload", s="me", d="d1"), dict(a="Upload", s="me", d="d2"), dict(a="Failed", s="me", d="d1"),
+                           dict(a="Failed", s="me", d="d2"), dict(a="Reply")],
+                          [dict(a="Upload", s="me", d="d1"), dict(a="Upload", s="other", d="d2"), dict(a="Failed", s="me", d="d1"),
+                           dict(a="Reply"), dict(a="Uploaded", s="other", d="d2")]):
+                    traces.append(ou.replay(s, mode, kind, prelude=pre, he=he))
+    for i, (s, mode, he) in enumerate(jobs):
         # every fourth creation starts right after another one on the same connection, whose giving up of HS_DESC is unanswered
-        traces.append(ou.replay(s, mode, "eph" if i % 3 else "fs", prelude=(i % 4 == 3)))
+        traces.append(ou.replay(s, mode, "fs" if (he or i % 3 == 0) else "eph",
+                                prelude=(True if i % 4 == 3 else "listener" if i % 4 == 1 else False), he=he))
         if any(e["a"] == "Uploaded" for e in s) or sum(1 for e in s if e["a"] == "Failed") >= 2:
             seen.add(common.digest([s, mode]))
     rep.cov["evaluations"] = len(traces)
@@ -71,14 +87,14 @@ def run(pid, tier, seed):
                        "hash; non-trivial = contains a confirmed upload or >= 2 failures")
     allknown = dict((f["id"], f) for f in common.open_findings(pid))
     ok = pipeline.validate(rep, pid, "OnionUp", "OnionUpTrace", "OnionUpTrace.cfg", traces, chunk=300, known=allknown,
-                           payload=lambda t: dict(script=pipeline.strip_obs(t), mode=t["mode"], kind=t["kind"], prelude=t["prelude"]))
+                           payload=lambda t: dict(script=pipeline.strip_obs(t), mode=t["mode"], kind=t["kind"], prelude=t["prelude"], he=t["he"]))
     rep.cov["samples"] = [dict(mode=t["mode"], kind=t["kind"], steps=t["steps"][:10]) for t in ok[:2]]
     return rep.finish()
 
 
 def replay(pid, path):
     p = json.load(open(path))
-    t = ou.replay(p["script"], p["mode"], p["kind"], p.get("prelude", False))
+    t = ou.replay(p["script"], p["mode"], p["kind"], p.get("prelude", False), p.get("he", False))
     res, r = tlc.validate_traces("OnionUpTrace", "OnionUpTrace.cfg", [t])
     x = res[0]
     known = set(f["id"] for f in common.open_findings(pid))
